@@ -9,9 +9,16 @@ mkdir -p bin work evidence replays
 build() {
   ( flock 9
     cp -f /repo/go.sum go.sum 2>/dev/null
-    go build -tags verif -o bin/vcheck.new ./cmd/vcheck && mv -f bin/vcheck.new bin/vcheck || exit 3
+    MODFLAG=""
+    if [ -n "${VERIF_REPO:-}" ] && [ "$VERIF_REPO" != "/repo" ]; then
+      # background sweeps only (vp run --with-repo): build against a snapshot of /repo so that seeded changes applied to
+      # /repo meanwhile cannot leak into the sweep. Registered commands never set VERIF_REPO and always build from /repo.
+      sed "s#=> /repo#=> $VERIF_REPO#" go.mod > work/go.alt.mod; cp -f go.sum work/go.alt.sum
+      MODFLAG="-modfile=work/go.alt.mod"
+    fi
+    go build $MODFLAG -tags verif -o bin/vcheck.new ./cmd/vcheck && mv -f bin/vcheck.new bin/vcheck || exit 3
     if [ "$ID" = "C20" ] || [ "${VERIF_BUILD_RACE:-0}" = "1" ]; then
-      go build -race -tags verif -o bin/vcheck.race.new ./cmd/vcheck && mv -f bin/vcheck.race.new bin/vcheck.race || exit 3
+      go build $MODFLAG -race -tags verif -o bin/vcheck.race.new ./cmd/vcheck && mv -f bin/vcheck.race.new bin/vcheck.race || exit 3
     fi
   ) 9>bin/.lock
 }
